@@ -50,6 +50,50 @@ fn one_run(s: &Searcher, cl: usize, hay: &[u8], sp: (usize, usize), an: bool, ea
            "out":out,"res":res,"full":steps.len() >= limit})
 }
 
+/// a whole stepwise overlapping search (until it reports nothing, plus two more calls) recorded as
+/// ONE run: the transition offsets must increase over the whole history of the OverlappingState
+fn overlap_run(s: &Searcher, cl: usize, hay: &[u8], sp: (usize, usize)) -> Value {
+    use aho_corasick::automaton::OverlappingState;
+    let limit = 8 * hay.len() + 64;
+    let input = Input::new(hay).span(sp.0..sp.1);
+    let mut ops: Vec<Value> = vec![];
+    let mut total = 0usize;
+    let g = guarded(|| {
+        let mut st = OverlappingState::start();
+        let mut res: Vec<Value> = vec![];
+        let mut extra = 0;
+        loop {
+            // one call = one batch of events; ["N"] marks a call that reported nothing
+            aho_corasick::verif::record_steps(limit);
+            let r = s.try_overlapping_step(&input, &mut st);
+            let steps = aho_corasick::verif::take_steps();
+            total += steps.len();
+            ops.push(json!(["C"]));
+            for e in steps.iter() {
+                ops.push(if e[0] == 1 { json!(["T", e[1]]) } else { json!(["Q", e[1], e[2], e[3], e[4], e[5]]) });
+            }
+            r?;
+            match st.get_match() {
+                Some(m) => res.push(crate::calls::m2v(&m)),
+                None => { extra += 1; ops.push(json!(["N"])); }
+            }
+            if extra > 2 || res.len() > (hay.len() + 2) * 64 {
+                break;
+            }
+        }
+        Ok::<_, aho_corasick::MatchError>(res)
+    });
+    let _ = aho_corasick::verif::take_steps();
+    let (out, res) = match g {
+        Ok(Ok(v)) => ("ok".to_string(), json!(v)),
+        Ok(Err(e)) => ("err".to_string(), json!(e.to_string())),
+        Err(p) => ("panic".to_string(), json!(p)),
+    };
+    let steps = vec![0u8; total];
+    json!({"ev":"run","mode":"overlap","c":cl,"hay":hay,"s":sp.0,"e":sp.1,"an":false,"early":false,"ops":ops,
+           "out":out,"res":res,"full":steps.len() >= limit})
+}
+
 pub fn run(out_prefix: &str, shards: usize, seed: u64, scale: usize, mks: &[&'static str]) -> (usize, usize) {
     let mut out = Out::create(out_prefix, shards);
     let mut rg = gen::rng(seed, 0x57E9_0001);
@@ -89,6 +133,10 @@ pub fn run(out_prefix: &str, shards: usize, seed: u64, scale: usize, mks: &[&'st
                             nev += 1;
                         }
                     }
+                    if mk == "std" && supported(&c, false) && sp.0 <= sp.1 {
+                        out.put(shard, &overlap_run(&s, cl, h, sp));
+                        nev += 1;
+                    }
                 }
             }
             shard += 1;
@@ -114,6 +162,18 @@ pub fn run(out_prefix: &str, shards: usize, seed: u64, scale: usize, mks: &[&'st
                 let early = rg.gen_range(0..3) == 0;
                 out.put(shard, &one_run(&s, cl, &h, sp, an, early));
                 nev += 1;
+                if mk == "std" && supported(&c, false) && sp.0 <= sp.1 {
+                    out.put(shard, &overlap_run(&s, cl, &h, sp));
+                    nev += 1;
+                }
+            }
+            // what a stale resume state would continue: p, stray byte, rest of q
+            if mk == "std" && supported(&c, false) {
+                for h in gen::stale_hays(&mut rg, &pats, 2) {
+                    out.put(shard, &overlap_run(&s, cl, &h, (0, h.len())));
+                    out.put(shard, &one_run(&s, cl, &h, (0, h.len()), false, false));
+                    nev += 2;
+                }
             }
         }
         shard += 1;
